@@ -168,6 +168,13 @@ fn gen(t: &mut Tape, _tier: Tier) -> Scenario {
         }
         let payload = enc.finish_segment();
         let mut opts = OptSpec::default();
+        // a memory limit that is large enough must not change anything
+        opts.memlimit = match t.below(5) {
+            0 => Some(dict.min(1 << 30) as usize),
+            1 => Some(1 << 30),
+            2 => Some((dict.min(1 << 28) * 2) as usize),
+            _ => None,
+        };
         if raw {
             sc.set_i("ep", EP_RAW_LZMA);
             RawSpec {
